@@ -4,7 +4,7 @@ RULE = ("(the C02 stream is run as well: its histories present two cookies that 
         "host and tagged backend; scripts include refused cookies, requests for ANOTHER tunnel's host, out-of-order data, "
         "keep-alives, close; every tunnel's responses, callback log (with the user the policy saw), accepts and bytes at its "
         "backend, bytes from its host, end of stream and silence after the end are compared with the model's solo run of that "
-        "tunnel; legacy RDG_IN_DATA with the same / another connection id. distinct = distinct tunnel; non-trivial = tunnels "
+        "tunnel; legacy RDG_IN_DATA with the same / another connection id, a second RDG_IN_DATA after the tunnel ended or while it is open, an RDG_IN_DATA that arrives before any RDG_OUT_DATA while another connection's RDG_OUT_DATA opens right after; 4 (thorough 8) tunnels whose hosts stream 24 MiB each at once, half of the clients reading slowly: every byte a client gets must be its own host's. The host check under token authentication is the real security.CheckSession, built once for all tunnels. distinct = distinct tunnel; non-trivial = tunnels "
         "that got at least one response")
 MODELLED = ("the connection-id cache and the per-connection Tunnel/Processor (Model/System.v) over the Processor model; HTTP "
             "hijacking, gorilla/websocket and the chunked reader are exercised by the runs; goroutine-level interleavings are C09")
